@@ -82,6 +82,7 @@ def gen_refs(rng):
         "reader_method": rng.choice(["collect_paths", "fast_forward_paths", "collect_by_line"]),
         "by_id": rng.random() < 0.5,
         "col": rng.choice([1, 2]),
+        "two_members": rng.random() < 0.5,
     }
 
 
@@ -299,18 +300,26 @@ def _g_member(sc):
     return {"id": "g0", "scan": sc["gscan"], "comps": ["@v = #1", "@t.k = line_number()", 'push("s", #2)', "@n = count()"]}
 
 
+def _g2_member(sc):
+    return {"id": "g1", "scan": "*", "comps": ["@w = #2", "@n2 = count()"]}
+
+
 def _refs(sc, out, w):
     for fi, rows in enumerate(sc["files"]):
         w.write_csv(f"src/f{fi}.csv", rows)
     gm = _g_member(sc)
+    two = bool(sc.get("two_members"))
+    gms = [gm] + ([_g2_member(sc)] if two else [])
+    col = sc.get("col", 1)
+    # with two members a header reference must name the member (the library documents references as single-path)
+    by_id = sc["by_id"] or two
+    ref_h = f"$G.headers.h{col}.g0" if by_id else f"$G.headers.h{col}"
     cs = ops.new_csvpaths()
     with ops.quiet():
         for fi in range(len(sc["files"])):
             cs.file_manager.add_named_file(name=f"f{fi}", path=f"src/f{fi}.csv")
-        cs.paths_manager.add_named_paths(name="G", paths=[gen.render(gm)])
-        col = sc.get("col", 1)
-        ref_h = f"$G.headers.h{col}.g0" if sc["by_id"] else f"$G.headers.h{col}"
-        reader = f"~id:r0~ $[*][ @a = $G.variables.v  @b = $G.variables.t.k  @n = $G.variables.n  @h = {ref_h} ]"
+        cs.paths_manager.add_named_paths(name="G", paths=[gen.render(m) for m in gms])
+        reader = f"~id:r0~ $[*][ @a = $G.variables.v  @b = $G.variables.t.k  @n = $G.variables.n  @h = {ref_h}" + ("  @w = $G.variables.w  @n2 = $G.variables.n2" if two else "") + " ]"
         cs.paths_manager.add_named_paths(name="R", paths=[reader])
     last = None
     for ri, run in enumerate(sc["runs"]):
@@ -321,18 +330,23 @@ def _refs(sc, out, w):
         last = run
         if ri:
             out.fault("instance_reuse")
-    # model: G's most recent run == a standalone run of its member over that run's file
+    # model: G's most recent run == standalone runs of its members over that run's file
     cp, printed, lines = ops.standalone(gen.render(gm, f"src/f{last['file']}.csv"))
     out.runs += 1
     want_vars = ops.jsonable(cp.variables)
+    if two:
+        cp2, _, _ = ops.standalone(gen.render(_g2_member(sc), f"src/f{last['file']}.csv"))
+        out.runs += 1
+        want_vars.update(ops.jsonable(cp2.variables))
     want_col = [f"{l[col]}".strip() for l in lines if len(l) > col and l[col] is not None]
     seams.SimClock.advance(seconds=1)
     ops.run_group(cs, sc["reader_method"], "R", fname=f"f{sc['reader_file']}")
     out.runs += 1
     rv = ops.jsonable(ops.results_of(cs, "R")[0].csvpath.variables)
     errs = ops.norm_errors(ops.results_of(cs, "R")[0].errors)
-    where = f"G run {len(sc['runs'])} time(s), last over f{last['file']} by {last['method']}; reader {sc['reader_method']}"
-    for var, key, form in (("a", "v", "$G.variables.v"), ("n", "n", "$G.variables.n")):
+    where = f"G ({len(gms)} member(s)) run {len(sc['runs'])} time(s), last over f{last['file']} by {last['method']}; reader {sc['reader_method']}"
+    pairs = [("a", "v", "$G.variables.v"), ("n", "n", "$G.variables.n")] + ([("w", "w", "$G.variables.w"), ("n2", "n2", "$G.variables.n2")] if two else [])
+    for var, key, form in pairs:
         if rv.get(var) != want_vars.get(key):
             out.v("variable_reference", f"{where}: {form} evaluated to {rv.get(var)!r}, the most recent run of G left {want_vars.get(key)!r} (errors {errs})", form="plain")
     want_b = (want_vars.get("t") or {}).get("k")
@@ -340,11 +354,12 @@ def _refs(sc, out, w):
         out.v("variable_reference", f"{where}: $G.variables.t.k evaluated to {rv.get('b')!r}, the most recent run of G left {want_b!r} (errors {errs})", form="tracking")
     if lines and last["method"] in ops.COLLECTING:
         if rv.get("h") != want_col:
-            out.v("header_reference", f"{where}: {ref_h} evaluated to {rv.get('h')!r}, the values collected under h{col} are {want_col!r} (errors {errs})", by_id=sc["by_id"])
-    out.fault("reference_resolved", 4)
-    out.sig = ["refs", len(sc["runs"]), [r["method"] for r in sc["runs"]], sc["reader_method"], sc["by_id"], len({r["file"] for r in sc["runs"]})]
+            out.v("header_reference", f"{where}: {ref_h} evaluated to {rv.get('h')!r}, the values collected under h{col} are {want_col!r} (errors {errs})", by_id=by_id)
+    out.fault("reference_resolved", 4 + (2 if two else 0))
+    out.sig = ["refs", len(sc["runs"]), [r["method"] for r in sc["runs"]], sc["reader_method"], by_id, len({r["file"] for r in sc["runs"]}), two]
     out.nontrivial = True
     out.probe("reference after the group ran more than once", len(sc["runs"]) > 1)
+    out.probe("reference into a group of two members", two)
     out.log(rv, want_vars, want_col, len(out.violations))
 
 
